@@ -929,11 +929,6 @@ impl<'a> Model<'a> {
                     format!("op {opi}: track {id} stores epoch {} scene {}, model epoch {} scene {}", ti.last_epoch, ti.scene, mt.last_epoch, mt.scene));
             }
         }
-        for (id, s) in p.live_shard_of.iter().chain(p.wasted_shard_of.iter()) {
-            if (*id as usize) % self.cfg.shards != *s {
-                self.v("C03", "place", op, "wrong-shard", format!("op {opi}: track {id} found in shard {s}"));
-            }
-        }
         // records must agree with what is stored
         if let Some(scenes) = recs {
             for (_, rs) in scenes {
@@ -1134,11 +1129,12 @@ pub fn walk(case: &TrackerCase, hist: &History) -> Walk {
                 if let Some(p) = &step.phys {
                     let mut ea = vec![0usize; cfg.shards];
                     let mut ew = vec![0usize; cfg.shards];
-                    for id in p.live.keys() {
-                        ea[(*id as usize) % cfg.shards] += 1;
+                    // per shard as physically found (how ids map to shards is the store's business)
+                    for s in p.live_shard_of.values() {
+                        ea[*s] += 1;
                     }
-                    for id in p.wasted.keys() {
-                        ew[(*id as usize) % cfg.shards] += 1;
+                    for s in p.wasted_shard_of.values() {
+                        ew[*s] += 1;
                     }
                     if *active != ea {
                         m.v("C03", "stats", kind, "active", format!("op {opi}: active_shard_stats {:?}, live store holds {:?}", active, ea));
